@@ -19,6 +19,10 @@
              per chain: Ring(CCW) Ring(CW) Orientation()
    3 CONTAINS : outer r observed                                          polygonContains
    4 ADDMP : incl mp ring observed-mp                                     addToMultiPolygon
+   5 MULTI : nodes ways                                                   shared by all relations
+             relations : list (polygons pieces members)                   each with its own ground truth
+             runs      : list (src incl nfeat, per relation: orients kind polys tainted)
+                                                                          ONE Convert call with all relations
 
    codes: 1 model <> implementation; 2 property oracle fails on the observation;
           3 the input the harness fed is not the one the spec describes (cut/orientation/scene
@@ -201,6 +205,32 @@ Definition check_addmp : P (list Z) :=
   incl <- pbool ;; mp <- pmp ;; ring <- pline ;; obs <- pmp ;;
   ret (code_if (mp_eqb (add_to_multipolygon incl mp ring) obs) 1).
 
+(* ---- MULTI: several relations sharing ways, one Convert call ---- *)
+Definition prel : P (scene * list piece * list (bool * Z * role)) :=
+  sc <- plist pgt ;; ps <- plist ppiece ;; ms <- plist prawmem ;; ret (sc, ps, ms).
+Definition prelobs : P (list Z * Z * multipolygon * bool) :=
+  o <- plist pint ;; k <- pint ;; p <- pmp ;; t <- pbool ;; ret (o, k, p, t).
+Definition pmrun : P (Z * bool * Z * list (list Z * Z * multipolygon * bool)) :=
+  s <- pint ;; i <- pbool ;; n <- pint ;; obs <- plist prelobs ;; ret (s, i, n, obs).
+
+Definition check_multi : P (list Z) :=
+  nodes <- plist pnode ;; rawways <- plist prawway ;; rels <- plist prel ;; runs <- plist pmrun ;;
+  let as_run (r : Z * bool * Z * list (list Z * Z * multipolygon * bool))
+             (ob : list Z * Z * multipolygon * bool) : run :=
+    let '(s, i, n, _) := r in let '(o, k, p, t) := ob in
+    mkRun s i o (if n =? Z.of_nat (length rels) then 1 else 0) k p t in
+  let j1 := forallb (fun r => let '(_, _, _, obs) := r in
+              forallb2 (fun rel ob => let '(_, _, ms) := rel in run_model_ok nodes rawways ms (as_run r ob))
+                       rels obs) runs in
+  let j2 := forallb (fun r => let '(_, _, _, obs) := r in
+              forallb2 (fun rel ob => let '(sc, _, _) := rel in run_spec_ok sc (as_run r ob)) rels obs) runs in
+  let j3 := forallb (fun rel => let '(sc, ps, ms) := rel in
+              scene_ok sc && valid_cuts sc ps && forallb2 (member_is_piece sc nodes rawways) ms ps) rels
+            && forallb (fun r => let '(_, _, _, obs) := r in
+                 forallb2 (fun rel ob => let '(sc, ps, _) := rel in let '(o, _, _, _) := ob in
+                             truthful_or_none o (expected_orients sc ps)) rels obs) runs in
+  ret (code_if j1 1 ++ code_if j2 2 ++ code_if j3 3)%list.
+
 Definition check_case (t : toks) : list Z :=
   match t with
   | tag :: rest =>
@@ -208,6 +238,7 @@ Definition check_case (t : toks) : list Z :=
                else if tag =? 4 then check_join
                else if tag =? 6 then check_contains
                else if tag =? 8 then check_addmp
+               else if tag =? 10 then check_multi
                else pfail in
       match parse_all p rest with Some codes => codes | None => [0] end
   | [] => [0]
